@@ -79,11 +79,37 @@ def gen():
                 prev = lines[i - 1].strip() if i else ""
                 if not prev.endswith("=") and not prev.endswith(",") and not prev.endswith("(") and not prev.endswith("."):
                     muts.append({"file": f, "line": i + 1, "op": "del-stmt", "k": 0, "old": l, "new": re.match(r"\s*", l).group(0) + "();" if False else ""})
+            # conjunct / disjunct dropping: `a && b` -> `a` | `b` (single-line conditions only)
+            mcond = re.match(r"^(\s*(?:\}\s*else\s+)?(?:if|while)\s+)(.*?)(\s*\{\s*)$", code)
+            if mcond and "let " not in mcond.group(2):
+                cond = mcond.group(2)
+                for opx in ("&&", "||"):
+                    parts = cond.split(f" {opx} ")
+                    if len(parts) == 2 and parts[0].count("(") == parts[0].count(")"):
+                        muts.append({"file": f, "line": i + 1, "op": "drop-right", "k": 0, "old": l, "new": mcond.group(1) + parts[0] + mcond.group(3)})
+                        muts.append({"file": f, "line": i + 1, "op": "drop-left", "k": 0, "old": l, "new": mcond.group(1) + parts[1] + mcond.group(3)})
+                if mcond.group(1).strip().endswith("if"):
+                    muts.append({"file": f, "line": i + 1, "op": "if-true", "k": 0, "old": l, "new": mcond.group(1) + "true" + mcond.group(3)})
+                    muts.append({"file": f, "line": i + 1, "op": "if-false", "k": 0, "old": l, "new": mcond.group(1) + "false" + mcond.group(3)})
+            # swapping two adjacent single-line statements of the same block
+            if i + 1 < len(lines):
+                nxt = strip_strings(lines[i + 1]).split("//")[0]
+                def simple(x):
+                    y = x.strip()
+                    return y.endswith(";") and y.count("(") == y.count(")") and y.count("{") == y.count("}") and not re.match(r"^(use|pub|mod|return|type|const|static|fn|struct|enum|impl|break|continue)\b", y)
+                if simple(code) and simple(nxt) and re.match(r"\s*", l).group(0) == re.match(r"\s*", lines[i + 1]).group(0) and l.strip() != lines[i + 1].strip():
+                    muts.append({"file": f, "line": i + 1, "op": "swap-stmt", "k": 0, "old": l, "new": lines[i + 1], "old2": lines[i + 1], "new2": l})
             # early-return / continue removal on their own line
             if re.match(r"^(return|continue|break)\b.*;$", st) and "return Err" not in st and st in ("return;", "continue;", "break;"):
                 muts.append({"file": f, "line": i + 1, "op": "del-jump", "k": 0, "old": l, "new": ""})
-    for n, m in enumerate(muts):
+    NEW_OPS = ("drop-right", "drop-left", "if-true", "if-false", "swap-stmt")
+    olds = [m for m in muts if m["op"] not in NEW_OPS]
+    news = [m for m in muts if m["op"] in NEW_OPS]
+    for n, m in enumerate(olds):
         m["id"] = "M%04d" % n
+    for n, m in enumerate(news):
+        m["id"] = "N%04d" % n
+    muts = olds + news
     with open(os.path.join(OUT, "mutants.jsonl"), "w") as fh:
         for m in muts:
             fh.write(json.dumps(m) + "\n")
@@ -101,6 +127,9 @@ def apply_mut(dst, m):
     lines = open(p).read().split("\n")
     assert lines[m["line"] - 1] == m["old"], (m["id"], "source moved")
     lines[m["line"] - 1] = m["new"]
+    if "old2" in m:
+        assert lines[m["line"]] == m["old2"], (m["id"], "source moved")
+        lines[m["line"]] = m["new2"]
     open(p, "w").write("\n".join(lines))
 
 
